@@ -103,6 +103,10 @@ def run_sem(pid, tier, seed, replay, gen_fn=None, extra_cov=None):
         "exhaustive": False,
     }
     if extra_cov:
+        add = extra_cov.pop("_add_states", (0, 0))
+        ma = extra_cov.get("mode_A_evaluator") or {}
+        cov["states"] += add[0] + ma.get("states", 0)
+        cov["transitions"] += add[1] + ma.get("transitions", 0)
         cov.update(extra_cov)
     common.write_evidence(pid, tier, seed, "model_checking", cov, time.time() - t0, len(violations), ASSUME_SEM)
     log("%s %s: %d cases, %d calls, %d judgements (%d n/a), %d violation(s), %d known; %.1fs" % (
@@ -110,9 +114,32 @@ def run_sem(pid, tier, seed, replay, gen_fn=None, extra_cov=None):
     return 1 if violations else 0
 
 
+MODEL_A_QUICK = {"C04", "C12"}                     # properties whose quick tier also runs MC_Evaluator
+MODEL_A_THOROUGH = {"C01", "C02", "C03", "C04", "C12", "C13", "C14"}
+STEP_TRACES = {"C04", "C12"}                       # properties whose checks also validate hook traces
+
+
 def run(pid, tier, seed, replay):
     if pid in semprops.GENERATORS:
-        return run_sem(pid, tier, seed, replay)
+        extra = {}
+        if not replay:
+            import evalmodel
+            wd = common.workdir("%s-%s-model" % (pid, tier))
+            common.build()
+            if pid in (MODEL_A_THOROUGH if tier == "thorough" else MODEL_A_QUICK):
+                g, d, nb = evalmodel.run(pid, tier, seed, wd)
+                extra["mode_A_evaluator"] = {"module": "spec/MC_Evaluator.tla", "batches": nb, "states": d, "transitions": g,
+                                             "invariants": "StateOK = ResultCorrect, ResultInUnit, BatchTransparent (alone, sharing disabled), CacheSound, ScopesBalanced, CountersSane, NeverPanics; liveness Finishes"}
+            if pid in STEP_TRACES:
+                st = evalmodel.run_step_traces(pid, tier, seed, wd)
+                for cid, where, formulas in st["drift"][:10]:
+                    log("NOTE model-drift property=%s trace %s: first differing step per call %s; batch %s" % (pid, cid, where, formulas))
+                extra["step_level"] = {"module": "spec/Trace_Eval.tla", "traces": st["traced"], "accepted": st["accepted"],
+                                       "hook_events": st["events"], "drift": [d[:2] for d in st["drift"][:10]],
+                                       "note": "step-level disagreement is model drift (reported as NOTE), never a violation by itself"}
+                extra.setdefault("mode_A_evaluator", {})
+                extra["_add_states"] = (st["distinct"], st["states"])
+        return run_sem(pid, tier, seed, replay, extra_cov=extra)
     raise ToolError("no check for %s" % pid)
 
 
